@@ -613,6 +613,59 @@ class InlineConstant(_TreeVariant):
     return len(set(n.id for n in ast.walk(fn) if isinstance(n, ast.Name) and isinstance(n.ctx, ast.Load) and n.id in consts))
 
 
+def _simple_assign_pairs(fn, same_value):
+  """Adjacent single-target assignments a = x; b = y in one block that can be fused: the targets are names or attributes,
+  y does not read a (textually), the two targets differ; with same_value the two values have the same text and are free of calls."""
+  out = []
+  for _owner, _field, blk in _blocks(fn):
+    for i in range(len(blk) - 1):
+      a, b = blk[i], blk[i + 1]
+      if not (isinstance(a, ast.Assign) and isinstance(b, ast.Assign) and len(a.targets) == 1 and len(b.targets) == 1):
+        continue
+      ta, tb = a.targets[0], b.targets[0]
+      if not (isinstance(ta, (ast.Name, ast.Attribute)) and isinstance(tb, (ast.Name, ast.Attribute))):
+        continue
+      ta_t, tb_t = ast.unparse(ta), ast.unparse(tb)
+      if ta_t == tb_t or any(ast.unparse(x) == ta_t for x in ast.walk(b.value)) or any(ast.unparse(x) == tb_t for x in ast.walk(a.value)):
+        continue
+      if any(isinstance(x, (ast.Call, ast.Yield, ast.Await, ast.NamedExpr)) for v in (a.value, b.value) for x in ast.walk(v)):
+        continue
+      if same_value and ast.unparse(a.value) != ast.unparse(b.value):
+        continue
+      out.append((blk, i))
+  return out
+
+
+class TupleAssign(_TreeVariant):
+  """`a = x` ; `b = y`  ->  `a, b = x, y`  (independent, call-free)."""
+  label = 'two assignments fused into a tuple assignment'
+
+  @classmethod
+  def candidates(cls, fn):
+    return _simple_assign_pairs(fn, False)
+
+  def transform(self, cand):
+    blk, i = cand
+    a, b = blk[i], blk[i + 1]
+    new = ast.Assign(targets=[ast.Tuple(elts=[a.targets[0], b.targets[0]], ctx=ast.Store())], value=ast.Tuple(elts=[a.value, b.value], ctx=ast.Load()))
+    blk[i:i + 2] = [ast.copy_location(new, a)]
+
+
+class ChainAssign(_TreeVariant):
+  """`a = v` ; `b = v`  ->  `a = b = v`  (v call-free)."""
+  label = 'two assignments of one value chained'
+
+  @classmethod
+  def candidates(cls, fn):
+    return _simple_assign_pairs(fn, True)
+
+  def transform(self, cand):
+    blk, i = cand
+    a, b = blk[i], blk[i + 1]
+    new = ast.Assign(targets=[a.targets[0], b.targets[0]], value=a.value)
+    blk[i:i + 2] = [ast.copy_location(new, a)]
+
+
 def generated_variants(funcs, repo=None, per_function=None):
   """per_function candidates of each kind per function (first, last, then evenly spread); VERIF_GEN_PER_FUNCTION widens the
   sample for a one-off sweep."""
@@ -631,7 +684,7 @@ def generated_variants(funcs, repo=None, per_function=None):
     fn = _find_func(tree, qualname) if tree is not None else None
     if fn is None:
       continue
-    for cls in (InvertIf, EarlyContinue, IfToTernary, AugToPlain, SplitChain, HoistAttr, LoopToComprehension, ProtoKwargs):
+    for cls in (InvertIf, EarlyContinue, IfToTernary, AugToPlain, SplitChain, HoistAttr, LoopToComprehension, ProtoKwargs, TupleAssign, ChainAssign):
       n = len(cls.candidates(fn))
       ks = [0, n - 1] + [round(j * (n - 1) / max(per_function - 1, 1)) for j in range(per_function)]
       seen_k = []
